@@ -42,8 +42,21 @@ type c14World struct {
 }
 
 func c14Setup(p *c14Params) (*c14World, error) {
+	return c14SetupOn(p, "")
+}
+
+// c14SetupOn builds the world on the in-memory ref store, or on a SQLite file when a path is given.
+func c14SetupOn(p *c14Params, file string) (*c14World, error) {
 	w := &c14World{db: mon.NewMemStore(), heads0: map[string][]byte{}, tables: map[string][]byte{}, msgs: map[string]string{}}
-	rs, sdb, err := mon.NewMemRefStore()
+	var rs ref.Store
+	var sdb *sql.DB
+	var err error
+	if file != "" {
+		os.Remove(file)
+		rs, sdb, err = mon.NewFileRefStore(file+"?_busy_timeout=150", true)
+	} else {
+		rs, sdb, err = mon.NewMemRefStore()
+	}
 	if err != nil {
 		return nil, err
 	}
@@ -195,6 +208,125 @@ func c14CheckCommitted(o *fw.Obs, w *c14World, st0 *c14State, class, how string)
 	return true
 }
 
+// c14CheckCommittedOnce is the all-branches outcome when branches may have moved on since the transaction touched them:
+// the staged data is in every branch's history exactly once, recorded once in its log, and the transaction is committed.
+func c14CheckCommittedOnce(o *fw.Obs, w *c14World, class, how string) bool {
+	st := c14Observe(w)
+	if st.status != string(ref.TSCommitted) {
+		o.Violate("status-not-committed/"+class, "%s: transaction status %q after a successful commit", how, st.status)
+		return false
+	}
+	for name := range w.heads0 {
+		n := 0
+		cur := []byte(st.heads[name])
+		for steps := 0; len(cur) > 0 && steps < 50; steps++ {
+			com, err := objects.GetCommit(w.db, cur)
+			if err != nil {
+				break
+			}
+			if bytes.Equal(com.Table, w.tables[name]) {
+				n++
+			}
+			cur = nil
+			if len(com.Parents) > 0 {
+				cur = com.Parents[0]
+			}
+		}
+		if n != 1 {
+			o.Violate("staged-data-not-exactly-once/"+class, "%s: the history of %s contains the transaction's staged table %d times (want exactly 1)", how, name, n)
+			return false
+		}
+		if st.txLogs[name] != 1 {
+			o.Violate("tx-reflog-entries/"+class, "%s: %s has %d reflog entries carrying the transaction id (want exactly 1)", how, name, st.txLogs[name])
+			return false
+		}
+	}
+	return true
+}
+
+// cursorDuringMove is the ref store with a foreign reader: while the at-th branch move runs, another connection to the
+// same SQLite file (another wrgl process listing refs, a backup tool) has a result set open, which holds a shared lock.
+type cursorDuringMove struct {
+	ref.Store
+	n, at  int
+	reader *sql.DB
+	held   bool
+}
+
+func (s *cursorDuringMove) SetWithLog(key string, sum []byte, rl *ref.Reflog) error {
+	s.n++
+	if s.n == s.at {
+		if rows, err := s.reader.Query(`SELECT name FROM refs`); err == nil {
+			if rows.Next() {
+				s.held = true
+			}
+			defer rows.Close()
+		}
+	}
+	return s.Store.SetWithLog(key, sum, rl)
+}
+
+// c14ForeignReader: Commit with a foreign read cursor open during the j-th branch move, for every j.
+func c14ForeignReader(c *fw.Case, env *fw.Env, o *fw.Obs, p *c14Params, class string) *fw.Obs {
+	file := filepath.Join(env.Dir, "c14-"+c.ID+".db")
+	defer os.Remove(file)
+	for j := 1; j <= p.K; j++ {
+		w, err := c14SetupOn(p, file)
+		if err != nil {
+			o.Status = "inconclusive"
+			o.Note = err.Error()
+			return o
+		}
+		reader, err := sql.Open("sqlite3", file)
+		if err != nil {
+			w.sdb.Close()
+			o.Status = "inconclusive"
+			o.Note = err.Error()
+			return o
+		}
+		st0 := c14Observe(w)
+		rs := &cursorDuringMove{Store: w.rs, at: j, reader: reader}
+		var ferr error
+		how := fmt.Sprintf("a foreign connection holds a read cursor on the SQLite file during branch move %d/%d", j, p.K)
+		pn := fw.Catch(func() { _, ferr = transaction.Commit(w.db, rs, w.id) })
+		reader.Close()
+		o.Ev("oracle_evaluations", 1)
+		o.Ev("commits_with_foreign_reader", 1)
+		if rs.held {
+			o.Ev("foreign_reader_held_a_lock", 1)
+		}
+		if pn != "" {
+			o.Violate("panic/foreign-reader/"+class, "%s: %s", how, pn)
+			w.sdb.Close()
+			return o
+		}
+		if ferr == nil {
+			if !c14CheckCommitted(o, w, st0, class+"/foreign-reader", how+", Commit returned nil") {
+				w.sdb.Close()
+				return o
+			}
+		} else {
+			o.Ev("faults_surfaced_as_error", 1)
+			var rerr error
+			if pn := fw.Catch(func() { _, rerr = transaction.Commit(w.db, w.rs, w.id) }); pn != "" || rerr != nil {
+				o.Violate("rerun-fails/"+class+"/foreign-reader", "%s: first attempt failed with %v; the re-run without the reader: %v %s", how, ferr, rerr, pn)
+				w.sdb.Close()
+				return o
+			}
+			o.Ev("reruns", 1)
+			if !c14CheckCommitted(o, w, st0, class+"/foreign-reader", how+", then re-run") {
+				w.sdb.Close()
+				return o
+			}
+		}
+		w.sdb.Close()
+		os.Remove(file)
+	}
+	o.Key("foreign-reader/%v", p.Existing)
+	o.Sample = map[string]interface{}{"mode": p.Mode, "branches": p.K, "existing": p.Existing}
+	return o
+}
+
 func c14Run(c *fw.Case, env *fw.Env) *fw.Obs {
 	o := fw.NewObs(c)
 	if c.Kind == "cli" {
@@ -219,6 +351,8 @@ func c14Run(c *fw.Case, env *fw.Env) *fw.Obs {
 	switch p.Mode {
 	case "cli":
 		return c14CLI(c, env, o, &p)
+	case "foreign-reader":
+		return c14ForeignReader(c, env, o, &p, class)
 	case "sequence":
 		w, err := c14Setup(&p)
 		if err != nil {
@@ -331,7 +465,7 @@ func c14Run(c *fw.Case, env *fw.Env) *fw.Obs {
 			if p.Mode == "stop" {
 				f.StopAt = int64(n)
 			} else {
-				f.FailAt = int64(n)
+				f.FailAt = int64(n) // fail, fail-advance, discard-fault
 			}
 			fdb, frs := &mon.FaultObjStore{S: w.db, F: f}, &mon.FaultRefStore{S: w.rs, F: f}
 			var ferr error
@@ -410,6 +544,23 @@ func c14Run(c *fw.Case, env *fw.Env) *fw.Obs {
 				w.sdb.Close()
 				return o
 			}
+			advanced := map[string]bool{}
+			if p.Mode == "fail-advance" && st1.status != string(ref.TSCommitted) {
+				// between the failed attempt and the re-run, ordinary work lands on the branches the attempt already moved
+				for name := range w.heads0 {
+					if st1.heads[name] != st0.heads[name] && st1.heads[name] != "" {
+						t := make([]byte, 16)
+						t[0], t[1] = 0xA0, byte(len(advanced))
+						sum, com, err := mon.SaveCommitObj(w.db, t, [][]byte{[]byte(st1.heads[name])}, "unrelated work on "+name, time.Unix(1600002000, 0))
+						if err == nil && ref.CommitHead(w.rs, name, sum, com, nil) == nil {
+							advanced[name] = true
+						}
+					}
+				}
+				if len(advanced) > 0 {
+					o.Ev("reruns_after_a_moved_branch_advanced", 1)
+				}
+			}
 			var rerr error
 			if pn := fw.Catch(func() { _, rerr = transaction.Commit(w.db, w.rs, w.id) }); pn != "" {
 				o.Violate("panic/rerun/"+class, "%s: %s", how, pn)
@@ -422,7 +573,12 @@ func c14Run(c *fw.Case, env *fw.Env) *fw.Obs {
 				w.sdb.Close()
 				return o
 			}
-			if !c14CheckCommitted(o, w, st0, class, how+", then re-run") {
+			if len(advanced) > 0 {
+				if !c14CheckCommittedOnce(o, w, class, how+", unrelated commits on "+fmt.Sprint(len(advanced))+" moved branch(es), then re-run") {
+					w.sdb.Close()
+					return o
+				}
+			} else if !c14CheckCommitted(o, w, st0, class, how+", then re-run") {
 				w.sdb.Close()
 				return o
 			}
@@ -480,6 +636,12 @@ func init() {
 				}
 				for _, mode := range []string{"fail", "stop", "discard-fault"} {
 					l.Add(mode, c14Params{K: len(mix), Existing: mix, Mode: mode}, 0)
+				}
+				if len(mix) >= 2 && len(mix) <= 3 {
+					l.Add("foreign-reader", c14Params{K: len(mix), Existing: mix, Mode: "foreign-reader"}, 0)
+				}
+				if len(mix) >= 2 {
+					l.Add("fail-advance", c14Params{K: len(mix), Existing: mix, Mode: "fail-advance"}, 0)
 				}
 				for _, sq := range []string{"commit,commit", "commit,discard", "discard,commit", "discard,discard", "commit,commit,commit"} {
 					l.Add("sequence", c14Params{K: len(mix), Existing: mix, Mode: "sequence", Sequence: sq}, 0)
